@@ -863,12 +863,8 @@ def witnesses(ctx, objdir, exe):
     }
     for key, o in obs.items():
         ctx.tag("witness:" + key + (":reproduced" if o["reproduced"] else ":not-reproduced"))
-        if ctx.kf.listed("C16", key):
-            ctx.known_finding(key, texts[key], o["reproduced"], {"key": key, "observation": o["observation"]})
-        elif o["reproduced"]:
-            # not (yet) listed in known-findings.txt: reported in the evidence and the builder's report
-            # (proposed-fixes/C16-*.diff); the lead decides between a fix: commit and a finding: entry
-            ctx.log("DEFECT-WITNESS reproduced (not listed in known-findings.txt): %s - %s" % (key, texts[key]))
+        # listed -> KNOWN-FINDING; unlisted (e.g. the shared-socket race, fixed in /repo) and reproduced -> VIOLATION
+        ctx.known_finding(key, texts[key], o["reproduced"], {"key": key, "observation": o["observation"]})
     ctx.extra["defect_witnesses"] = obs
 
 
